@@ -5,6 +5,10 @@ C08 (conservation, per-flow order, drained).  Models: coq/Elem/Port.v, coq/Elem/
 kinds:  'port'     a Port alone
         'portmon'  a Port observed by a PortMonitor (scripted sampling distribution, both service_included settings)
         'redport'  a REDPort with scripted random.uniform
+        'port2' / 'redport2'  TWO instances (Port+Port / REDPort+REDPort or Port+REDPort, different parameters) in ONE
+                   Environment with interleaved workloads: each instance's log is replayed against its own copy of the
+                   model, the monitors run per instance, and `instances-interfere` checks that an action of one instance
+                   leaves the other's public state alone (state kept at class level would be shared)
 """
 from fractions import Fraction
 
@@ -14,6 +18,7 @@ from props import elem_common as ec
 F = Fraction
 EID_KEYS = {None: None, "": 0, "p1": 1, "sw3": 2}           # element ids -> the model's ekey
 FAR = 2 ** 40                                               # delay returned by an exhausted sampling script
+TWO = ("port2", "redport2")                                 # kinds with two instances in one Environment
 
 
 class Script:
@@ -130,7 +135,7 @@ def extracted_portmon(repo):
 
 class PortPart:
     name = "port"
-    kinds = ["port", "redport", "portmon"]
+    kinds = ["port", "redport", "portmon", "port2", "redport2"]
     serves = ["C09", "C08"]
     props_files = {"C09": ["Props/C09.v", "Props/C09_Bridge.v", "Props/C09_BridgeRed.v", "Props/C09_BridgeMon.v"], "C08": ["Props/C08_Port.v"]}
     coq_imports = ["From ONL Require Import Base.Cmp Elem.Packet Elem.StoreQ Elem.Port Elem.Red."]
@@ -141,7 +146,9 @@ class PortPart:
                 "(arrivals coincide with departures, also placed exactly at predicted departure instants); limits None / bytes / "
                 "packets at and around the fill level; RED thresholds/weights from small sets with scripted uniform draws on the "
                 "k/8 lattice (hits u = p); non-trivial = at least 3 packets and (a packet waited behind another, or a packet "
-                "was refused, or a RED draw was made); distinct by hash of the case"),
+                "was refused, or a RED draw was made); kinds port2 / redport2 (12%): two instances with different parameters in one "
+                "Environment, interleaved workloads, per-instance replay and monitors plus the independence clause; distinct "
+                "by hash of the case"),
         "C08": "same case stream as C09; non-trivial = at least 3 packets of which one waited or was refused",
     }
     trusted_base = {
@@ -183,10 +190,35 @@ class PortPart:
              1024: (32, 64, 128, 192, 256, 384, 512), 2 ** 20: (32768, 65536, 131072, 64, 1000, 1500)}
 
     def gen_case(self, rng, tier, prop_id):
-        kind = rng.choices(["port", "redport", "portmon"], weights=[5, 3, 2])[0]
+        kind = rng.choices(["port", "redport", "portmon", "port2", "redport2"], weights=[44, 26, 18, 6, 6])[0]
+        if kind in ("port2", "redport2"):
+            kinds = ["port", "port"] if kind == "port2" else rng.choice([["redport", "redport"], ["redport", "redport"],
+                                                                         ["port", "redport"], ["redport", "port"]])
+            insts = []
+            for i, k in enumerate(kinds):
+                sub = self._gen_single(rng, k, nmax=7)
+                sub.pop("pre", None)
+                self._offset_uids(sub, 100 * i)
+                insts.append(sub)
+            if insts[0]["eid"] == insts[1]["eid"] and rng.random() < 0.7:
+                insts[1]["eid"] = "sw3" if insts[0]["eid"] != "sw3" else "p1"
+            unis = insts[0].pop("uniforms", []) + insts[1].pop("uniforms", [])
+            rng.shuffle(unis)
+            return {"kind": kind, "insts": insts, "uniforms": unis, "pre": rng.random() < 0.3, "order": rng.choice([0, 1])}
+        return self._gen_single(rng, kind)
+
+    @staticmethod
+    def _offset_uids(sub, k):
+        """renumber the packets of a sub-case so that the instances of a two-instance case have disjoint uids"""
+        w = sub["workload"]
+        w["packets"] = {str(int(u) + k): {**sp, "id": sp["id"] + k} for u, sp in w["packets"].items()}
+        for d in w["drivers"]:
+            d["bursts"] = [[t, [u + k for u in us]] for (t, us) in d["bursts"]]
+
+    def _gen_single(self, rng, kind, nmax=None):
         rate = rng.choice([0, 8, 64, 1024, 2 ** 20])
         sizes = self.SIZES[rate]
-        nmax = 10 if kind == "redport" else 12
+        nmax = nmax or (10 if kind == "redport" else 12)
         w = ec.gen_workload(rng, flows=(0, 1, 2), n_max=nmax, sizes=sizes, burst_p=0.45)
         if rate > 0 and len(w["drivers"]) > 1 and rng.random() < 0.4:
             self._align_to_departures(rng, w, rate)
@@ -267,6 +299,8 @@ class PortPart:
 
     # ---- implementation -------------------------------------------------------------------------
     def run_impl(self, case):
+        if case["kind"] in TWO:
+            return self._run_impl2(case)
         from onl.sim import Environment
         import onl.netdev.port as pmod
         import onl.netdev.red_port as rmod
@@ -340,6 +374,168 @@ class PortPart:
             rmod.random = saved
         exhausted = all(e[0] > 2 ** 30 for e in env._queue)
         return {"log": log, "raised": h.raised, "exhausted": exhausted}
+
+    # ---- two instances in one Environment -------------------------------------------------------------
+    @staticmethod
+    def _make_port(env, sub, pmod, rmod):
+        rate = _num(sub["rate"])
+        if sub["kind"] == "redport":
+            r = sub["red"]
+            return rmod.REDPort(env, rate, max_threshold=r["max"], min_threshold=r["min"], max_probability=_num(r["maxp"]),
+                                element_id=sub["eid"], qlimit=sub["qlimit"], weight_factor=r["w"], limit_bytes=sub["limit_bytes"])
+        return pmod.Port(env, rate, sub["qlimit"], sub["limit_bytes"], sub["eid"])
+
+    def _run_impl2(self, case):
+        """both instances live in ONE Environment; the global log carries, after every action, the public state of BOTH"""
+        from onl.sim import Environment
+        import onl.netdev.port as pmod
+        import onl.netdev.red_port as rmod
+        env = Environment()
+        h = PHarness(env)
+        insts = case["insts"]
+        for sub in insts:
+            h.add_packets(sub["workload"]["packets"])
+        unis = Script(case.get("uniforms", []))
+
+        class FakeRandom:
+            uniform = staticmethod(unis.uniform)
+        saved = rmod.random
+        rmod.random = FakeRandom
+        ports = [None, None]
+        try:
+            def drivers(i):
+                for d in insts[i]["workload"]["drivers"]:
+                    h.add_driver(d["bursts"], late=d["late"], target=Target(i))
+
+            class Target:                      # drivers may be created before the instances exist
+                def __init__(self, i):
+                    self.i = i
+
+                def put(self, p):
+                    return ports[self.i].put(p)
+            order = [case.get("order", 0), 1 - case.get("order", 0)]
+            if case.get("pre"):
+                for i in order:
+                    drivers(i)
+            try:
+                for i in (0, 1):
+                    ports[i] = self._make_port(env, insts[i], pmod, rmod)
+            except Exception as e:
+                return {"log": [], "raised": [type(e).__name__, str(e)[:300]], "exhausted": False, "where": "constructor"}
+            for i in (0, 1):
+                port = ports[i]
+                port.action._generator.__name__ = "run%d" % i          # disambiguate the two server processes
+                tap = h.tap("out%d" % i)
+
+                def _put_and_read(p, port=port, _tap_put=tap.put):
+                    at = [port.byte_size, int(port.busy)]
+                    _tap_put(p)
+                    if h.cur_outs:
+                        h.cur_outs[-1].append(["at-forward"] + at)
+                tap.put = _put_and_read
+                port.out = tap
+                h.watch_store("store%d" % i, port.store)
+            h.attach(ports[0])
+            if not case.get("pre"):
+                for i in order:
+                    drivers(i)
+
+            def sample():
+                return [[port.packets_received, port.packets_dropped, port.byte_size, len(port.store.items), int(port.busy),
+                         ec.qs(getattr(port, "average_queue_size", 0)), unis.n,
+                         [getattr(p, "uid", -1) for p in port.store.items], port.busy_packet_size, []] for port in ports]
+            h.after_action(sample)
+            log = h.run(until=2 ** 30)
+        finally:
+            rmod.random = saved
+        return {"log": log, "raised": h.raised, "exhausted": not env._queue,
+                "same_store": ports[0].store is ports[1].store}
+
+    def _split(self, case, obs):
+        """project the global log onto the instances: -> ([(sub_case, sub_obs), (sub_case, sub_obs)], interference messages).
+        Each sub_obs has exactly the format of a single-instance observation, so the single-instance replay and monitors
+        apply unchanged.  Clock advances belong to both; a put belongs to the instance whose packet it is; a kernel step to
+        the instance whose store / server process it names."""
+        insts = case["insts"]
+        owner = {}
+        for i, sub in enumerate(insts):
+            for u in sub["workload"]["packets"]:
+                owner[int(u)] = i
+        logs = [[], []]
+        draws = [[], []]
+        inter = []
+        if obs.get("same_store"):
+            inter.append("instances-interfere: the two ports share ONE store object")
+        prev = None
+        gn = 0
+
+        def pub(smp):
+            return smp[:6] + [smp[7], smp[8]]
+
+        def mine(i, smp):
+            return smp[:6] + [len(draws[i])] + smp[7:]
+        for e in obs["log"]:
+            if e[0] not in ("adv", "put", "step"):
+                inter.append(f"instances-interfere: unexpected log entry {e[:2]}")
+                break
+            both = e[-1]
+            who = None
+            if e[0] == "put":
+                who = owner.get(e[1])
+            elif e[0] == "step":
+                tgt = e[1][1]
+                if tgt and tgt[-1:] in "01" and tgt[:-1] in ("run", "store"):
+                    who = int(tgt[-1])
+                else:
+                    inter.append(f"instances-interfere: kernel step {e[1]} does not belong to one instance")
+                    break
+            n_after = both[0][6]
+            if n_after > gn:
+                if who is None or e[0] != "put" or n_after > gn + 1:
+                    inter.append(f"instances-interfere: {n_after - gn} uniform draw(s) consumed by {e[:2]}")
+                    break
+                draws[who].append(case["uniforms"][gn])
+            gn = n_after
+            # independence: an action of one instance (or a clock advance) leaves the other's public state alone
+            if prev is not None:
+                for j in (0, 1):
+                    if j != who and pub(prev[j]) != pub(both[j]):
+                        names = ["packets_received", "packets_dropped", "byte_size", "len(store.items)", "busy",
+                                 "average_queue_size", "store.items", "busy_packet_size"]
+                        ch = [f"{n}: {a} -> {b}" for n, a, b in zip(names, pub(prev[j]), pub(both[j])) if a != b]
+                        inter.append(f"instances-interfere: {e[0]} {e[1]} of instance {who} changed instance {j}'s {'; '.join(ch)}")
+            prev = both
+            if e[0] == "adv":
+                for i in (0, 1):
+                    logs[i].append(["adv", e[1], mine(i, both[i])])
+                continue
+            outs = []
+            for o in e[2]:
+                if o[0] == "out" and (o[1] != "out%d" % who or owner.get(o[2]) != who):
+                    inter.append(f"instances-interfere: during {e[0]} {e[1]} of instance {who} packet {o[2]} (of instance "
+                                 f"{owner.get(o[2])}) came out of tap {o[1]}")
+                else:
+                    outs.append(o)
+            if e[0] == "put":
+                logs[who].append(["put", e[1], outs, mine(who, both[who])])
+            else:
+                logs[who].append(["step", [e[1][0], e[1][1][:-1]], outs, mine(who, both[who])])
+        parts = []
+        for i, sub in enumerate(insts):
+            sc = {**sub, "uniforms": draws[i]}
+            parts.append((sc, {"log": logs[i], "raised": None, "exhausted": obs["exhausted"]}))
+        return parts, inter[:3]
+
+    def _monitor2(self, case, obs, prop_id):
+        parts, inter = self._split(case, obs)
+        if inter:
+            return inter          # the per-instance clauses are meaningless once the instances are entangled
+        msgs = []
+        for i, (sc, so) in enumerate(parts):
+            for m in (self._monitor_c09 if prop_id == "C09" else self._monitor_c08)(sc, so):
+                sig, _, rest = m.partition(":")
+                msgs.append(f"{sig}: [instance {i}: {sc['kind']}]{rest}")
+        return msgs[:4]
 
     # ---- log -> model actions -------------------------------------------------------------------
     def _cfg_term(self, case):
@@ -421,6 +617,17 @@ class PortPart:
     def agree_term(self, case, obs):
         if obs["raised"]:
             return "false"
+        if case["kind"] in TWO:
+            parts, inter = self._split(case, obs)
+            if inter:
+                return f"false (* {inter[0][:120].replace('*', ' ')} *)"
+            terms = []
+            for sc, so in parts:
+                acts, err = self._actions(sc, so)
+                if acts is None:
+                    return f"false (* {err} *)"
+                terms.append(f"port_agree {self._cfg_term(sc)} (port0 0) {cf.lst(acts, sep=';\n    ')}")
+            return "(" + ")\n  && (".join(terms) + ")"
         acts, err = self._actions(case, obs)
         if acts is None:
             return f"false (* {err} *)"
@@ -434,6 +641,15 @@ class PortPart:
             return None
         if not obs or obs.get("raised"):
             return None
+        if case["kind"] in TWO:
+            parts, inter = self._split(case, obs)
+            terms = []
+            for sc, so in parts:
+                acts, err = self._actions(sc, so)
+                if acts is None:
+                    return None
+                terms.append(f"port_first_diff {self._cfg_term(sc)} (port0 0) {cf.lst(acts, sep=';\n    ')} 0%nat")
+            return "(" + ",\n  ".join(terms) + ")"
         acts, err = self._actions(case, obs)
         if acts is None:
             return None
@@ -480,6 +696,8 @@ class PortPart:
     def monitor(self, case, obs, prop_id):
         if obs["raised"]:
             return [f"port-raises: {case['kind']} raised {obs['raised']} ({obs.get('where', 'during the run')})"]
+        if case["kind"] in TWO:
+            return self._monitor2(case, obs, prop_id)
         return (self._monitor_c09 if prop_id == "C09" else self._monitor_c08)(case, obs)[:4]
 
     def _red_expect(self, case, avg, u):
@@ -661,6 +879,12 @@ class PortPart:
         return msgs
 
     def nontrivial(self, case, obs, prop_id):
+        if case["kind"] in TWO:
+            if obs.get("raised"):
+                return False
+            parts, inter = self._split(case, obs)
+            return (not inter and all(sc["workload"]["packets"] for sc, _ in parts)
+                    and any(self.nontrivial(sc, so, prop_id) for sc, so in parts))
         if obs.get("raised") or len(case["workload"]["packets"]) < 3:
             return False
         waited = refused = drew = False
@@ -676,6 +900,15 @@ class PortPart:
         return waited or refused or (prop_id == "C09" and drew)
 
     def shrink(self, case):
+        if case["kind"] in TWO:
+            for i in (0, 1):
+                for sub in self.shrink(case["insts"][i]):
+                    ins = list(case["insts"])
+                    ins[i] = sub
+                    yield {**case, "insts": ins}
+            if case.get("pre"):
+                yield {**case, "pre": False}
+            return
         for w in ec.shrink_workload(case["workload"]):
             yield {**case, "workload": w}
         if case.get("mon"):
@@ -690,6 +923,13 @@ class PortPart:
 
     def describe(self, case, obs):
         k = case["kind"]
+        if k in TWO:
+            keys = [k, f"{k}:" + "+".join(sub["kind"] for sub in case["insts"]),
+                    f"{k}:rates={'same' if case['insts'][0]['rate'] == case['insts'][1]['rate'] else 'different'}",
+                    f"{k}:packets={min(sum(len(sub['workload']['packets']) for sub in case['insts']), 16)}"]
+            if case.get("pre"):
+                keys.append(f"{k}:driver-created-before-element")
+            return keys
         keys = [k, f"{k}:rate={case['rate']}", f"{k}:packets={min(len(case['workload']['packets']), 12)}",
                 f"{k}:drivers={len(case['workload']['drivers'])}", f"{k}:eid={case['eid']!r}"]
         if k == "redport":
